@@ -278,10 +278,179 @@ func parseTCP(src, dst [4]byte, seg []byte) (tcpHdr, []byte, error) {
 	if tcpChecksum(src, dst, seg) != get16(seg[16:]) {
 		return h, nil, errors.New("bad TCP checksum")
 	}
+	return parseTCPFields(seg, hl), seg[hl:], nil
+}
+
+func parseTCPFields(seg []byte, hl int) tcpHdr {
+	var h tcpHdr
 	h.sp, h.dp = get16(seg[0:]), get16(seg[2:])
 	h.seq, h.ack = get32(seg[4:]), get32(seg[8:])
 	h.flags = seg[13]
 	h.win = get16(seg[14:])
 	h.opts = seg[20:hl]
-	return h, seg[hl:], nil
+	return h
+}
+
+// ---- IPv6 (RFC 8200) ----
+
+// Addr is an endpoint address of either family. B holds the 4 bytes of an
+// IPv4 address in B[:4] (rest zero) or the 16 bytes of an IPv6 address.
+type Addr struct {
+	V6 bool
+	B  [16]byte
+}
+
+func addr4(ip [4]byte) Addr {
+	var a Addr
+	copy(a.B[:], ip[:])
+	return a
+}
+
+func addr6(ip [16]byte) Addr { return Addr{V6: true, B: ip} }
+
+func (a Addr) v4() [4]byte { return [4]byte{a.B[0], a.B[1], a.B[2], a.B[3]} }
+
+// IPv6 next header values used here.
+const (
+	nhHopByHop = 0
+	nhTCP      = 6
+	nhDestOpts = 60
+)
+
+// tcpChecksum6 is the TCP checksum over the IPv6 pseudo header (RFC 8200
+// section 8.1: source, destination, 32 bit upper-layer length, 3 zero bytes,
+// next header = 6).
+func tcpChecksum6(src, dst [16]byte, seg []byte) uint16 {
+	var ph [40]byte
+	copy(ph[0:], src[:])
+	copy(ph[16:], dst[:])
+	put32(ph[32:], uint32(len(seg)))
+	ph[39] = nhTCP
+	sum := onesSum(0, ph[:])
+	sum = onesSum(sum, seg[:16])
+	sum = onesSum(sum, seg[18:])
+	return foldSum(sum)
+}
+
+// buildTCP6 is buildTCP with the checksum over the IPv6 pseudo header.
+func buildTCP6(src, dst [16]byte, sp, dp uint16, seq, ack uint32, flags uint8, win uint16, opts []byte, payload []byte) []byte {
+	b := buildTCP([4]byte{}, [4]byte{}, sp, dp, seq, ack, flags, win, opts, payload)
+	put16(b[16:], tcpChecksum6(src, dst, b))
+	return b
+}
+
+// extHeader6 returns a hop-by-hop or destination options header of 8*units
+// bytes that holds nothing but padding (one PadN option, RFC 8200 4.2), with
+// the next header field set to next.
+func extHeader6(next uint8, units int) []byte {
+	if units < 1 || units > 32 {
+		panic("netsim: extension header size")
+	}
+	b := make([]byte, 8*units)
+	b[0] = next
+	b[1] = byte(units - 1) // length in 8 octet units, not counting the first
+	b[2] = 1               // PadN
+	b[3] = byte(len(b) - 4)
+	return b
+}
+
+// buildIPv6 returns an IPv6 packet. ext, if not nil, is one extension header
+// of kind extKind (its own next header field must name proto).
+func buildIPv6(src, dst [16]byte, tclass uint8, flow uint32, hop uint8, proto uint8, extKind uint8, ext []byte, payload []byte) []byte {
+	n := len(ext) + len(payload)
+	if n > 65535 {
+		panic("netsim: IPv6 payload too large")
+	}
+	b := make([]byte, 40+n)
+	b[0] = 0x60 | tclass>>4
+	b[1] = tclass<<4 | byte(flow>>16)&0x0f
+	b[2] = byte(flow >> 8)
+	b[3] = byte(flow)
+	put16(b[4:], uint16(n))
+	b[6] = proto
+	if ext != nil {
+		b[6] = extKind
+	}
+	b[7] = hop
+	copy(b[8:], src[:])
+	copy(b[24:], dst[:])
+	copy(b[40:], ext)
+	copy(b[40+len(ext):], payload)
+	return b
+}
+
+type ip6Hdr struct {
+	src, dst [16]byte
+	tclass   uint8
+	flow     uint32
+	hop      uint8
+	proto    uint8 // the upper-layer protocol after the extension headers
+	extKinds []uint8
+	totalLen int
+}
+
+// parseIPv6 is the receiving host's view: fixed header, then any chain of
+// hop-by-hop / destination options headers whose options are all padding.
+func parseIPv6(b []byte) (ip6Hdr, []byte, error) {
+	var h ip6Hdr
+	if len(b) < 40 || b[0]>>4 != 6 {
+		return h, nil, errors.New("not IPv6")
+	}
+	plen := int(get16(b[4:]))
+	if 40+plen > len(b) {
+		return h, nil, fmt.Errorf("bad IPv6 payload length %d, have %d", plen, len(b)-40)
+	}
+	h.totalLen = 40 + plen
+	h.tclass = b[0]<<4 | b[1]>>4
+	h.flow = uint32(b[1]&0x0f)<<16 | uint32(b[2])<<8 | uint32(b[3])
+	h.hop = b[7]
+	copy(h.src[:], b[8:24])
+	copy(h.dst[:], b[24:40])
+	next := b[6]
+	rest := b[40:h.totalLen]
+	for next == nhHopByHop || next == nhDestOpts {
+		if next == nhHopByHop && len(h.extKinds) > 0 {
+			return h, nil, errors.New("hop-by-hop header not first")
+		}
+		if len(rest) < 8 {
+			return h, nil, errors.New("short IPv6 extension header")
+		}
+		l := 8 * (int(rest[1]) + 1)
+		if l > len(rest) {
+			return h, nil, errors.New("IPv6 extension header beyond the packet")
+		}
+		for o := rest[2:l]; len(o) > 0; {
+			switch {
+			case o[0] == 0: // Pad1
+				o = o[1:]
+			case len(o) >= 2 && o[0] == 1 && 2+int(o[1]) <= len(o): // PadN
+				o = o[2+int(o[1]):]
+			default:
+				return h, nil, errors.New("unexpected IPv6 option")
+			}
+		}
+		h.extKinds = append(h.extKinds, next)
+		next = rest[0]
+		rest = rest[l:]
+	}
+	h.proto = next
+	return h, rest, nil
+}
+
+// parseTCPAddr is parseTCP for either family.
+func parseTCPAddr(src, dst Addr, seg []byte) (tcpHdr, []byte, error) {
+	if !src.V6 {
+		return parseTCP(src.v4(), dst.v4(), seg)
+	}
+	if len(seg) < 20 {
+		return tcpHdr{}, nil, errors.New("short TCP segment")
+	}
+	hl := int(seg[12]>>4) * 4
+	if hl < 20 || hl > len(seg) {
+		return tcpHdr{}, nil, errors.New("bad TCP data offset")
+	}
+	if tcpChecksum6(src.B, dst.B, seg) != get16(seg[16:]) {
+		return tcpHdr{}, nil, errors.New("bad TCP checksum (IPv6 pseudo header)")
+	}
+	return parseTCPFields(seg, hl), seg[hl:], nil
 }
